@@ -302,8 +302,35 @@ def _strip_coq_comments(src: str) -> str:
     return ''.join(out)
 
 
+def _area_locks(rels: Sequence[str]) -> List[str]:
+    """Lock files for the areas (first directory below theories/ or generated/) touched by building `rels`."""
+    areas = set()
+    for rel in rels:
+        v = rel[:-3] + '.v' if rel.endswith('.vo') else rel
+        for f in dependency_closure(v) or [v]:
+            parts = f.split('/')
+            areas.add(parts[1] if len(parts) > 2 else parts[0])
+    return [os.path.join(COQ, f'.lock.{a}') for a in sorted(areas)]
+
+
+class _Locks:
+    def __init__(self, paths):
+        self.locks = [_Lock(p) for p in paths]
+
+    def __enter__(self):
+        for l in self.locks:
+            l.__enter__()
+        return self
+
+    def __exit__(self, *a):
+        for l in reversed(self.locks):
+            l.__exit__(*a)
+
+
 def coq_make(targets: Sequence[str], timeout: int = 900) -> Tuple[bool, str]:
-    """Build the given .vo targets (paths relative to coq/) with coq_makefile + make under a lock."""
+    """Build the given .vo targets (paths relative to coq/) with coq_makefile + make.
+    The Makefile is regenerated under a global lock; the build itself only locks the areas in the targets'
+    dependency closure (acquired in sorted order), so checks of unrelated properties build concurrently."""
     with _Lock(os.path.join(COQ, '.build.lock')):
         files = _all_v_files()
         proj = ' '.join(COQ_FLAGS[:3]) + '\n' + ' '.join(COQ_FLAGS[3:]) + '\n' + '\n'.join(files) + '\n'
@@ -316,12 +343,9 @@ def coq_make(targets: Sequence[str], timeout: int = 900) -> Tuple[bool, str]:
                                capture_output=True, text=True)
             if r.returncode != 0:
                 raise HarnessError('coq_makefile failed: ' + r.stderr)
-            # dependency file must be recomputed when the file set changes
-            for f in ('.Makefile.coq.d',):
-                try:
-                    os.remove(os.path.join(COQ, f))
-                except OSError:
-                    pass
+        # refresh the dependency file (cheap) while we hold the global lock, so that make does not rewrite it concurrently
+        subprocess.run(['timeout', '300', 'make', '-f', 'Makefile.coq', '.Makefile.coq.d'], cwd=COQ, capture_output=True, text=True)
+    with _Locks(_area_locks(targets)):
         cmd = ['timeout', str(timeout), 'make', '-f', 'Makefile.coq', f'-j{NPROC}', '-k'] + list(targets)
         r = subprocess.run(cmd, cwd=COQ, capture_output=True, text=True)
         return r.returncode == 0, r.stdout + '\n' + r.stderr
@@ -359,7 +383,7 @@ def coqc_props(props_rel: str, timeout: int = 600) -> Tuple[bool, str, Dict[str,
     """Compile the Props file itself (after its dependencies were made) capturing `Print Assumptions` output.
     Returns (ok, log, {theorem: [axioms]})  — [] means 'Closed under the global context'."""
     cmd = ['timeout', str(timeout), 'coqc'] + COQ_FLAGS + [props_rel]
-    with _Lock(os.path.join(COQ, '.build.lock')):
+    with _Locks(_area_locks([props_rel])):
         r = subprocess.run(cmd, cwd=COQ, capture_output=True, text=True)
     log = r.stdout + '\n' + r.stderr
     thms = props_theorems(props_rel)
